@@ -85,7 +85,7 @@ class PUnit:
             res.functions.append(fn)
             led = ledger.lookup(ctx.pid, c.target)
             try:
-                modsha = ledger.module_sha(source.load(c.module))
+                modsha = ledger.module_sha(source.load(c.module), c.qual, list(getattr(rep, "inlined", [])) + list(c.inline_callees))
             except Exception:
                 modsha = None
             changed = led is not None and (led["sha256"] != rep.sha or led["module_sha256"] != modsha)
